@@ -18,3 +18,6 @@ ASSUMPTIONS = [
     "NOT DECIDED: frequency <-> scaled-ppm round trip beyond |x| <= 2^8 and 'drift proportional to the interval' are exact floating-point multiply/divide statements no back end decides (DESIGN C18)",
 ]
 EXPLANATION = "unit conversions executed from go/ssa over full-width symbolic inputs"
+CLAIMED = True
+LEVEL_TEXT = "Bounded model checking of the real conversion functions over full-width symbolic inputs (every int64, every 48-bit second count, every int64 correction). Floating-point clauses: only sign/zero facts and the round trip for |x| <= 2^8 are decided; drift proportionality is not decided (exact FP multiply is out of solver reach)."
+LEVEL_NOTE = "time.Time by contract (pair / ns64 model); the frequency round trip beyond the stated range and drift proportionality are not claimed; solvers trusted."
